@@ -173,8 +173,14 @@ class Condition:
 
 
 class Lock:
+    """threading.Lock.  Under the thread scheduler: a scheduled lock.  Without one (a single thread): the lock still
+    has a state - acquiring a held lock fails after the time-out (or is a deadlock when it would block for ever),
+    releasing a free lock raises RuntimeError - so that a lock left held by an error path is noticed."""
+    _reentrant = False
+
     def __init__(self):
         self._sl = None
+        self._held = 0
 
     def _impl(self):
         s = ENV.sched
@@ -193,23 +199,42 @@ class Lock:
         self.release()
         return False
 
-    def acquire(self, *a, **k):
+    def acquire(self, blocking=True, timeout=-1):
         i = self._impl()
         if i is not None:
             i.acquire()
+            return True
+        if self._held and not self._reentrant:
+            if not blocking:
+                return False
+            if timeout is not None and timeout >= 0:
+                ENV.advance(timeout)
+                return False
+            raise RuntimeError("deadlock: the only thread acquires a lock it already holds")
+        self._held += 1
         return True
 
     def release(self):
         i = self._impl()
         if i is not None:
             i.release()
+            return
+        if not self._held:
+            raise RuntimeError("release unlocked lock")
+        self._held -= 1
 
     def locked(self):
         i = self._impl()
-        return bool(i is not None and i.owner is not None)
+        if i is not None:
+            return bool(i.owner is not None)
+        return bool(self._held)
 
 
-threading_model = types.SimpleNamespace(Condition=Condition, Lock=Lock, RLock=Lock,
+class RLock(Lock):
+    _reentrant = True
+
+
+threading_model = types.SimpleNamespace(Condition=Condition, Lock=Lock, RLock=RLock,
                                         Thread=_rthreading.Thread, Event=_rthreading.Event,
                                         current_thread=_rthreading.current_thread,
                                         __name__="threading")
